@@ -58,6 +58,11 @@ func prefLists() [][]int {
 
 // buildRecords encodes the advertised subset of the universe as Cipher Suite
 // Record data.
+// fillerAuth is the authentication algorithm of the filler records buildRecords
+// puts in front: None normally; an OEM value where None/None/None (Cipher Suite 0)
+// is itself one of the suites under test.
+var fillerAuth byte
+
 func buildRecords(advertised int, seed uint64) []byte {
 	// advertise the subset in a seed-dependent rotation and record style: one
 	// record per suite; suites sharing authentication and confidentiality merged
@@ -71,7 +76,7 @@ func buildRecords(advertised int, seed uint64) []byte {
 	// and 5 bytes in front shift the interesting records across the 16-byte chunk
 	// boundaries at every byte offset
 	for i := int(seed/18) % 7; i > 0; i-- {
-		f := ref.SuiteRecord{ID: byte(0x40 + i), Auth: 0}
+		f := ref.SuiteRecord{ID: byte(0x40 + i), Auth: fillerAuth}
 		switch (int(seed/126) + i) % 3 {
 		case 1:
 			f.Integs = []byte{0}
@@ -238,6 +243,43 @@ func TestSelection(t *testing.T) {
 		}
 	}
 	ev.Label("selection-complete")
+}
+
+// TestSelectionWithSuiteZero: the same selection rule over a universe that
+// contains Cipher Suite 0 (no authentication, integrity or confidentiality: the
+// zero value of the library's suite type), which a caller may list and a BMC may
+// advertise like any other. Every list of length 0..3 x every advertised subset.
+func TestSelectionWithSuiteZero(t *testing.T) {
+	old := universe
+	defer func() { universe, fillerAuth = old, 0 }()
+	universe = []ref.Suite{old[0], old[1], {Auth: 0, Integ: 0, Conf: 0}, old[2]}
+	fillerAuth = 0x3E // an OEM authentication algorithm nobody prefers
+	n := 0
+	for _, pref := range prefLists() {
+		for adv := 0; adv < 1<<uint(len(universe)); adv++ {
+			n++
+			var msg string
+			var nt bool
+			func() {
+				defer func() {
+					if r := recover(); r != nil {
+						msg = fmt.Sprintf("panic: %v", r)
+					}
+				}()
+				msg, nt = runSelection(pref, adv, uint64(ev.Seed)*17+uint64(n))
+			}()
+			ev.Eval()
+			if msg != "" {
+				msg = "(universe: 17, 3, suite 0, MD5 suite) " + msg
+				ev.Violation("TestSelectionWithSuiteZero", map[string]any{"preferences": pref, "advertised": adv, "n": n}, msg)
+				t.Fatalf("%s", msg)
+			}
+			if nt {
+				ev.NonTrivial(fmt.Sprintf("sel0|%v|%d", pref, adv))
+			}
+		}
+	}
+	ev.Label("selection-with-suite-zero")
 }
 
 func runConfirmation(proposed ref.Suite, answered ref.Suite, seed uint64) string {
@@ -528,5 +570,5 @@ func TestDiscoveryFaults(t *testing.T) {
 }
 
 func TestCoverage(t *testing.T) {
-	ev.RequireLabels(t, 1, "selection-complete", "discovery-fault:later-index", "advertisement:several-algorithms-per-record", "advertisement:same-id-for-all-records", "confirmation-complete", "selection:first-preference-not-advertised", "sequence-of-opens", "confirmation:answered-differs", "confirmation:answered-equals", "confirmation:odd-payload-length-byte")
+	ev.RequireLabels(t, 1, "selection-complete", "selection-with-suite-zero", "discovery-fault:later-index", "advertisement:several-algorithms-per-record", "advertisement:same-id-for-all-records", "confirmation-complete", "selection:first-preference-not-advertised", "sequence-of-opens", "confirmation:answered-differs", "confirmation:answered-equals", "confirmation:odd-payload-length-byte")
 }
